@@ -9,6 +9,7 @@ import (
 	"path/filepath"
 	"sort"
 	"strings"
+	"sync"
 	"time"
 
 	"github.com/compose-spec/compose-go/v2/types"
@@ -220,13 +221,16 @@ func C05(c *core.Ctx) {
 		return
 	}
 	n := 0
-	_, err = core.ReadDump(dump+".dump", func(vars map[string]interface{}) error {
+	var nmu sync.Mutex
+	_, err = core.ReadDumpParallel(dump+".dump", 8, func(idx int, vars map[string]interface{}) error {
 		cs := asMap(vars["cs"])
 		if _, seed := cs["seed"]; seed {
 			return nil
 		}
+		nmu.Lock()
 		n++
-		wd := filepath.Join(root, fmt.Sprintf("c%d", n))
+		nmu.Unlock()
+		wd := filepath.Join(root, fmt.Sprintf("c%d", idx))
 		mkdirs(wd)
 		defer os.RemoveAll(wd)
 		nodes := nodesOf(cs["nodes"])
@@ -253,7 +257,7 @@ func C05(c *core.Ctx) {
 		key := fmt.Sprintf("%s %s depth=%d place=%v %s", asStr(cs["kind"]), attr, asInt(cs["depth"]), cs["place"], mainDoc)
 		c.Eval("chain|"+key, true)
 		rep := map[string]interface{}{"attribute": attr, "files": nodes, "main": mainDoc, "target": target}
-		if n%53 == 1 {
+		if idx%53 == 1 {
 			c.Sample(map[string]interface{}{"attribute": attr, "main_file": mainDoc, "flattened_by_spec": target, "placement": cs["place"]})
 		}
 		pt, et := safeLoad(wd, nil, []namedDoc{{Name: filepath.Join(wd, "target.yaml"), Content: target}})
